@@ -73,6 +73,17 @@ pub(crate) fn decode(data: &[u8], hint: Option<String>) -> String {
     // no detectable or known encoding (empty input, an unknown label, a
     // UCS-4 byte order mark): try UTF-8, the parser rejects what makes no sense
     let enc = encoding(data, hint).unwrap_or(encoding_rs::UTF_8);
+    // The labels of ISO-8859-1 select windows-1252 (the two agree except for
+    // the bytes 0x80 to 0x9F). A document that declares ISO-8859-1 means
+    // ISO-8859-1: there those bytes are the C1 controls U+0080 to U+009F.
+    if enc == encoding_rs::WINDOWS_1252 {
+        if let Some(Some(label)) = declared_encoding(data) {
+            let label = String::from_utf8_lossy(label).to_ascii_lowercase();
+            if !label.contains("1252") && !label.contains("ascii") && label != "ansi_x3.4-1968" {
+                return encoding_rs::mem::decode_latin1(data).into_owned();
+            }
+        }
+    }
     let (s, _, _) = enc.decode(data);
     s.into_owned()
 }
